@@ -25,10 +25,6 @@
 
 namespace life {
 
-// some library code calls `swap(a, b)` unqualified on sketch objects: make std::swap visible to argument dependent
-// lookup through the harness' types (see proposed_fixes/C19-ebpps-merge-unqualified-swap.md)
-using std::swap;
-
 struct Block { uint64_t id; std::string kind; size_t esz; size_t n; char* base; int inst; long item_off; };
 
 struct Ledger {
